@@ -282,7 +282,7 @@ pub fn check_lint(rec: &J) -> Verdict {
             let target = o["target"].as_str().unwrap();
             for sgg in o["sugg"].as_array().unwrap() {
                 let payload = sgg.as_str().unwrap();
-                let (line_text, var) = if target.starts_with('<') {
+                let (line_text, var) = if target.starts_with('<') || target.contains(':') || target.contains(' ') {
                     // replace the unrenderable target by a variable so that the words can be read
                     match payload.find(" is ").map(|k| (k, " is ")).or_else(|| payload.find(" like ").map(|k| (k, " like "))).or_else(|| payload.find(" says ").map(|k| (k, " says "))) {
                         Some((k, " like ")) => (format!("Rock zzz like {}", &payload[k + 6..]), "zzz".to_string()),
